@@ -961,6 +961,9 @@ func ToEntry(n Node) (e *Entry) {
 					}
 
 					e.Deviate[dt] = append(e.Deviate[dt], de)
+					// de is not in the child map, so its errors
+					// would otherwise be lost.
+					e.importErrors(de)
 				}
 			}
 		case "mandatory":
